@@ -221,19 +221,53 @@ impl CaseId<'_> {
     }
 }
 
+pub const KNOWN_10FFFF: &str = "format1-inverted-definition-misses-U+10FFFF";
+
+pub struct Checked {
+    /// identities of the entries the library offered (None: call failed / not parseable)
+    pub keys: Option<BTreeSet<EntKey>>,
+    /// the model result the library is expected to be consistent with
+    pub model: Result<Vec<Cand>, &'static str>,
+    /// the known U+10FFFF defect shaped this result
+    pub quirk: bool,
+}
+
 /// Equality oracle: library result == reference model for one definition.
-/// Returns the library's entry-identity set when the call succeeded.
-pub fn check_intersection(
+pub fn check_intersection(ctx: &mut Ctx, id: &CaseId, prep: &Prepared, claim_exact: bool, d: &Def) -> Checked {
+    let model = candidates(id.font, prep, d, false);
+    let lib_def = to_lib(d);
+    let Some(lib) = lib_intersect(ctx, id.bytes, &lib_def, &|| format!("{}#{} intersect", id.stage, id.item)) else {
+        return Checked { keys: None, model, quirk: false };
+    };
+    ctx.eval();
+    if claim_exact && tainted(id.font, d) {
+        let qmodel = candidates(id.font, prep, d, true);
+        if let (Ok(obs), Ok(qc), Ok(tc)) = (&lib, &qmodel, &model) {
+            let l = sorted_keys_lib(obs);
+            if l.is_some() && l != Some(sorted_keys_model(tc)) && l == Some(sorted_keys_model(qc)) {
+                ctx.violation(
+                    KNOWN_10FFFF,
+                    json!({"what": "format-1 table + inverted code point set containing U+10FFFF: entries reached only through U+10FFFF are not offered / not counted (Charmap::mappings() never yields U+10FFFF)",
+                           "lib": l, "model": sorted_keys_model(tc), "case": id.detail(d)}),
+                    Some(id.bytes),
+                );
+                return Checked { keys: ent_keys(obs), model: qmodel, quirk: true };
+            }
+        }
+    }
+    let keys = compare_intersection(ctx, id, &lib, &model, claim_exact, d);
+    Checked { keys, model, quirk: false }
+}
+
+fn compare_intersection(
     ctx: &mut Ctx,
     id: &CaseId,
+    lib: &LibIntersect,
     model: &Result<Vec<Cand>, &'static str>,
     claim_exact: bool,
     d: &Def,
 ) -> Option<BTreeSet<EntKey>> {
-    let lib_def = to_lib(d);
-    let lib = lib_intersect(ctx, id.bytes, &lib_def, &|| format!("{}#{} intersect", id.stage, id.item))?;
-    ctx.eval();
-    match (&lib, model) {
+    match (lib, model) {
         (Err(e), Err(_)) => {
             if e.starts_with("harness:") {
                 ctx.inconclusive(e.clone());
@@ -476,18 +510,22 @@ pub fn extension_loop(ctx: &mut Ctx, stage: &str, item: usize, start: &AbsFont, 
     ctx.count("loop:started", 1);
     loop {
         let prep = prepare(&font);
-        let model = candidates(&font, &prep, d);
-        if model.is_err() {
-            ctx.count("loop:skipped-malformed", 1);
-            return;
-        }
         let snap = font.clone();
         let id = CaseId { stage, item, font: &snap, bytes: &bytes };
         let exact = font_exact(&font);
+        if !exact {
+            ctx.count("loop:skipped-model-not-exact", 1);
+            return;
+        }
+        // applied-bit states reached through real applications
+        let chk = check_intersection(ctx, &id, &prep, exact, d);
         if rounds > 0 {
-            // applied-bit states reached through real applications
-            check_intersection(ctx, &id, &model, exact, d);
             ctx.count("oracle:equality-after-apply", 1);
+        }
+        let model = chk.model;
+        if model.is_err() {
+            ctx.count("loop:skipped-malformed", 1);
+            return;
         }
         let Some((uris, sel)) = check_selection(ctx, &id, &model, d) else {
             ctx.count("loop:ended:select-error", 1);
